@@ -40,7 +40,7 @@ OUTSIDE = ["shapes beyond the bounds", "coordinates within 1e-9 pixel of a pixel
 STUBS = ["np.arctan2 / np.radians / np.sin / np.cos inside elliptical_radius_from: unit-vector angle domain (angle = (cos,sin) pair with c^2+s^2=1; "
          "sums of angles by complex multiplication) - exact in real arithmetic; concrete angles enter through float64 cos/sin (1e-9 tolerance)"]
 ASSUMPTIONS = ["pixel scales > 0", "query coordinates strictly inside the extent and >= 1e-9 pixel away from pixel boundaries"]
-EXPLORER_OPTS = {"timeout_ms": 15000}
+EXPLORER_OPTS = {"timeout_ms": 60000}
 
 
 def POST_INSTALL():
